@@ -121,7 +121,11 @@ impl Phase {
 #[derive(Clone)]
 struct Binding {
     src: ValSrc,
-    value: Value,
+    /// An observer that keeps a handle perturbs what it observes (an extra `Arc` owner turns an
+    /// in-place append into a copy), so the model keeps an alias of the bound value only sometimes
+    /// (a pure function of the run seed and op), and always when a pristine twin could not rebuild
+    /// the value with the same map iteration order.
+    alias: Option<Value>,
     snap: Snap,
 }
 
@@ -293,8 +297,9 @@ impl<'a, 'w> Runner<'a, 'w> {
         // I2 (values held by the model's bindings are the very values bound: they must not change either)
         for (d, scope) in self.model.iter().enumerate() {
             for (name, b) in scope {
-                if snap(&b.value) != b.snap {
-                    let (e, g) = (b.snap.show(), snap(&b.value).show());
+                let Some(held) = &b.alias else { continue };
+                if snap(held) != b.snap {
+                    let (e, g) = (b.snap.show(), snap(held).show());
                     self.violate("I4-bound", op_index, e, g, format!("value bound to `{}` in own scope {} changed after it was bound", name, d));
                     return;
                 }
@@ -477,7 +482,10 @@ impl<'a, 'w> Runner<'a, 'w> {
                 match &b.src {
                     ValSrc::Fresh(spec) => build_value(spec, &[]),
                     ValSrc::RootVar(n) => tr.ctx.get_variable(n.as_str()).unwrap_or(Value::Null),
-                    ValSrc::Retained(_) => b.value.clone(),
+                    ValSrc::Retained(_) => match &b.alias {
+                        Some(v) => v.clone(),
+                        None => rebuild_from_snap(&b.snap),
+                    },
                 }
             };
             child.add_variable_from_value(name.clone(), v);
@@ -523,12 +531,15 @@ impl<'a, 'w> Runner<'a, 'w> {
                         self.stats.retained_alias_defines += 1;
                     }
                     let s = snap(&v);
-                    cur.add_variable_from_value(name.clone(), v.clone());
+                    let keep_alias = (matches!(src, ValSrc::Retained(_)) && s.has_multi_key_map())
+                        || mix(&[sh.w.run_seed, self.tid as u64, idx as u64, 0xa11a5]) % 4 == 0;
+                    let alias = if keep_alias { Some(v.clone()) } else { None };
+                    cur.add_variable_from_value(name.clone(), v);
                     self.model.last_mut().unwrap().insert(
                         name.clone(),
                         Binding {
                             src: src.clone(),
-                            value: v,
+                            alias,
                             snap: s,
                         },
                     );
